@@ -519,7 +519,7 @@ class PacketTransmitter(Elaboratable):
         # If we need to retry sending our packets, we'll need to reset our pending packet count.
         # Otherwise, we increment and decrement our "to send" counts normally.
         with m.If(self.retry_required):
-            m.d.ss += packets_to_send.eq(packets_awaiting_ack)
+            m.d.ss += packets_to_send.eq(packets_awaiting_ack + enqueue_send)
         with m.Elif(enqueue_send & ~dequeue_send):
             m.d.ss += packets_to_send.eq(packets_to_send + 1)
         with m.Elif(dequeue_send & ~enqueue_send):
@@ -605,6 +605,19 @@ class PacketTransmitter(Elaboratable):
         with m.If(self.retry_required):
             m.d.ss += retry_pending.eq(1)
 
+        # Keep track of whether our raw transmitter is busy with a packet; and of whether that packet
+        # was handed over before an LBAD arrived. Such a "stale" transmission must not count as one of
+        # the retransmissions that answer the LBAD.
+        tx_busy  = Signal()
+        tx_stale = Signal()
+        with m.If(packet_tx.done):
+            m.d.ss += [tx_busy.eq(0), tx_stale.eq(0)]
+        with m.Else():
+            with m.If(packet_tx.generate):
+                m.d.ss += tx_busy.eq(1)
+            with m.If(self.retry_required & (tx_busy | packet_tx.generate)):
+                m.d.ss += tx_stale.eq(1)
+
 
         with m.FSM(domain="ss"):
 
@@ -626,7 +639,12 @@ class PacketTransmitter(Elaboratable):
 
             # WAIT_FOR_SEND -- we've now dispatched our packet; and we're ready to wait for it to be sent.
             with m.State("WAIT_FOR_SEND"):
-                m.d.comb += packet_tx.generate.eq(1)
+
+                # Don't start a fresh transmission once an LBAD has arrived: what we'd send is a
+                # retransmission, which has to wait for our LRTY and carry the DL bit.
+                m.d.comb += packet_tx.generate.eq(~retry_pending)
+                with m.If(retry_pending & ~tx_busy):
+                    m.next = "DISPATCH_PACKET"
 
                 # We're done with this packet.
                 with m.If(packet_tx.done):
@@ -646,8 +664,9 @@ class PacketTransmitter(Elaboratable):
                 m.d.comb += packet_tx.header.delayed.eq(1)
                 m.d.comb += packet_tx.generate.eq(~self.lrty_pending)
 
-                # We're done with this packet.
-                with m.If(packet_tx.done):
+                # We're done with this packet; unless it was on its way before the most recent LBAD,
+                # in which case our read pointer and counter are already set up for retransmission.
+                with m.If(packet_tx.done & ~tx_stale & ~self.retry_required):
                     m.d.comb += dequeue_send.eq(1)
 
                     # If this was the last packet to retransmit, we're done handling this LBAD.
@@ -709,7 +728,7 @@ class PacketTransmitter(Elaboratable):
                         ]
 
                     # If the credit matches the sequence we're expecting, we can accept it!
-                    with m.Elif(next_expected_ack_number == lc_detector.subtype):
+                    with m.Elif((next_expected_ack_number == lc_detector.subtype) & (packets_awaiting_ack != 0)):
                         m.d.comb += retire_packet.eq(1)
 
                         # Next time, we'll expect the next credit in the sequence.
